@@ -3,3 +3,4 @@ pub mod model;
 pub mod node;
 pub mod props;
 pub mod report;
+pub mod transport;
